@@ -49,6 +49,9 @@ def run(c):
         for name, args in [
             ("splits", ["stream", "splits", "noise", c.pick(5, 1)]),
             ("boundary", ["stream", "boundary", "noise"]),
+            # data written by the initiator right after ITS handshake completes, arriving together with (or split
+            # anywhere across) the last handshake message - added after seeded mutant C17-1 was missed
+            ("early", ["stream", "early", "noise"]),
             ("corrupt", ["stream", "corrupt", "noise", c.pick(2, 3)]),
             ("random", ["stream", "random", "noise", c.seed, c.pick(150, 3000)]),
         ]:
